@@ -366,7 +366,9 @@ def run_spec(spec):
 
 VALUE_KINDS = ["python float", "python int", "numpy int64", "numpy float32", "numpy float64",
                "arrays: fortran order", "arrays: transposed view", "arrays: reversed view", "arrays: tuples", "arrays: int64 dtype", "arrays: float32 dtype",
-               "python complex", "numpy complex128", "arrays: complex128 dtype"]
+               "python complex", "numpy complex128", "arrays: complex128 dtype",
+               # magnitudes far from 1: a value is what it is however small it is next to the machine epsilon
+               "python float tiny", "python complex tiny", "python float huge"]
 
 
 def _as_kind(vals, flat, kind):
@@ -409,7 +411,9 @@ def concrete_check(spec, leafvals, parvals, w=None, kind="python float"):
     text = g["text"]
     integral = kind in ("python int", "numpy int64", "arrays: int64 dtype")
     cplx = "complex" in kind
-    vals, flat = build_values(text, False, [(int(x) if integral else (complex(x, 0.5 * x + 0.25) if cplx else float(x))) for x in parvals])
+    sc = 1e-15 if "tiny" in kind else (1e15 if "huge" in kind else 1.0)
+    sci = sc
+    vals, flat = build_values(text, False, [(int(x) if integral else (complex(x * sc, (0.5 * x + 0.25) * sci) if cplx else float(x) * sc)) for x in parvals])
     toks = w["lang"].real_tokens_pos(text)
     T.PyAlg.overflow = False
     T.PyAlg.fscale = 0.0
